@@ -69,6 +69,9 @@ def configs(tier):
     for kind, n in e2e:
         for letter in ("X", "Y"):
             out.append({"part": "end-to-end", "obs": letter, "kind": kind, "n": n})
+    for flav in ("pure", "mixed"):
+        for letter in ("X", "Y"):
+            out.append({"part": "stubbed", "obs": letter, "flavour": flav, "n": 2, "grad": "off"})      # observables evaluated under torch.no_grad()
     out.append({"part": "end-to-end", "obs": "Y", "kind": "complex", "n": 1, "via": "deepcopy"})      # observables of a copied state
     out.append({"part": "end-to-end", "obs": "X", "kind": "mixed", "n": 1, "via": "deepcopy"})
     out.append({"generic": "every shape"})
